@@ -120,11 +120,11 @@ def litLe (a b : UnitDef) : Bool :=
   | some x, some y => decide (x.value ≤ y.value)
   | _, _ => false
 
-def itemOk (it : RawItem) : Bool :=
+def itemOk (uniqueSymbols : Bool) (it : RawItem) : Bool :=
   match expand it with
   | .error _ => false
   | .ok d =>
-    decide ((d.units.map (·.symbol)).Nodup) && decide ((d.units.map (·.ident)).Nodup) &&
+    (!uniqueSymbols || decide ((d.units.map (·.symbol)).Nodup)) && decide ((d.units.map (·.ident)).Nodup) &&
     decide ((d.units.map (·.constName)).Nodup) &&
     (match d.refIdent with
      | none => decide (d.units.Pairwise (fun a b => textLe a.name b.name = true))
@@ -133,7 +133,11 @@ def itemOk (it : RawItem) : Bool :=
        d.units.all (fun u => if u.ident == r then (u.scale.map (·.value)) == some 1 else true) &&
        decide (d.units.Pairwise (fun a b => litLe a b = true)))
 
-theorem catalogue_registry_ok : allItems.all itemOk = true := by decide +kernel
+/-- the predefined quantities (main crate, astronomical crate) also have unique symbols; the synthetic
+definitions of the harness deliberately include a type with two units of one symbol -/
+theorem catalogue_registry_ok :
+    (Gen.Catalogue.items ++ Gen.Astro.items).all (itemOk true) = true ∧ Gen.Synth.items.all (itemOk false) = true := by
+  constructor <;> decide +kernel
 
 /-- no two declared scale literals of one catalogue quantity share an `f64` sort key unless they
 have the same exact value: the `f64` order used by the macro is faithful to the exact
